@@ -269,10 +269,13 @@ int rtosc_arg_vals_cmp_single(const rtosc_arg_val_t* _lhs,
         case 'a':
         {
             int32_t llen = rtosc_av_arr_len(_lhs), rlen = rtosc_av_arr_len(_rhs);
-            if(     rtosc_av_arr_type(_lhs) != rtosc_av_arr_type(_rhs)
-               && !(rtosc_av_arr_type(_lhs) == 'T' && rtosc_av_arr_type(_rhs) == 'F')
-               && !(rtosc_av_arr_type(_lhs) == 'F' && rtosc_av_arr_type(_rhs) == 'T'))
-                rval = (rtosc_av_arr_type(_lhs) > rtosc_av_arr_type(_rhs)) ? 1 : -1;
+            // boolean arrays are tagged 'T' or 'F' (after one of their
+            // elements), but they are one kind of array
+            char ltype = rtosc_av_arr_type(_lhs), rtype = rtosc_av_arr_type(_rhs);
+            if(ltype == 'T') ltype = 'F';
+            if(rtype == 'T') rtype = 'F';
+            if(ltype != rtype)
+                rval = (ltype > rtype) ? 1 : -1;
             else
             {
                 // the arg vals differ in this array => compare and return
